@@ -242,7 +242,9 @@ func one(raw json.RawMessage, c *ecase, i int) {
 		vdrv.Run(vdrv.Opts{Args: []string{"-functions", "-flat", "-http=localhost:18768", "-no_browser", "src"},
 			Fetch: func(string) (*profile.Profile, error) { return q.Copy(), nil },
 			HTTP: func(a *plugin.HTTPServerArgs) error {
-				for _, page := range []string{"/top", "/flamegraph", "/peek?f=.", "/source?f=."} {
+				// "/" is the graph page: Graphviz is not installed here, so this is the path on which the external
+				// tool FAILS - whatever the handler answers then, no profile text may reach the page unescaped
+				for _, page := range []string{"/top", "/flamegraph", "/peek?f=.", "/source?f=.", "/"} {
 					path := page
 					if k := strings.Index(path, "?"); k >= 0 {
 						path = path[:k]
